@@ -114,12 +114,12 @@ Definition reconstruct_baked := reconstruct_baked_in Gen.Baked.baked_lines.
 Record task := { tk_id : gostring; tk_file : gostring; tk_payload : option (list N);
                  tk_start : Z; tk_end : Z }.
 
-Fixpoint baked_range (fuel : nat) (i e : Z) : bres (list msg_to_sign) :=
+Fixpoint baked_range_in (lines : list (list N)) (fuel : nat) (i e : Z) : bres (list msg_to_sign) :=
   match fuel with
   | O => BOk []
   | S f => if (i <? e)%Z then
-             match reconstruct_baked i with
-             | BOk m => match baked_range f (i + 1)%Z e with
+             match reconstruct_baked_in lines i with
+             | BOk m => match baked_range_in lines f (i + 1)%Z e with
                         | BOk r => BOk (m :: r)
                         | other => other
                         end
@@ -129,20 +129,23 @@ Fixpoint baked_range (fuel : nat) (i e : Z) : bres (list msg_to_sign) :=
            else BOk []
   end.
 
-Fixpoint tasks_to_messages (ts : list task) : bres (list msg_to_sign) :=
+Fixpoint tasks_to_messages_in (lines : list (list N)) (ts : list task) : bres (list msg_to_sign) :=
   match ts with
   | [] => BOk []
   | t :: r =>
       let head :=
         match tk_payload t with
         | Some p => BOk [{| ms_id := tk_id t; ms_file := tk_file t; ms_payload := p; ms_baked := false |}]
-        | None => baked_range (Z.to_nat (tk_end t - tk_start t)) (tk_start t) (tk_end t)
+        | None => baked_range_in lines (Z.to_nat (tk_end t - tk_start t)) (tk_start t) (tk_end t)
         end in
       match head with
-      | BOk h => match tasks_to_messages r with
+      | BOk h => match tasks_to_messages_in lines r with
                  | BOk rest => BOk (h ++ rest)
                  | other => other
                  end
       | other => other
       end
   end.
+
+Definition baked_range := baked_range_in Gen.Baked.baked_lines.
+Definition tasks_to_messages := tasks_to_messages_in Gen.Baked.baked_lines.
